@@ -292,7 +292,7 @@ type memoKey struct {
 }
 
 func (c *Ctx) c19Deterministic(i int, hr *HistRun, o *HistOpts, cat []queryTpl, rng *rand.Rand) {
-	dir := c.Dir(fmt.Sprintf("c19-%d-q", i))
+	dir := c.DirI(i, fmt.Sprintf("c19-%d-q", i))
 	r, _, err := openReplica(c, dir, hr.G.G, SpawnOpt{}, true)
 	if err != nil {
 		c.Err(i, "open", err)
